@@ -89,7 +89,7 @@ class Evidence:
             'discharged': self.discharged,
             'checker_cmd': ' ;; '.join(sorted(set(self.cmds)))[:4000] or 'none (run aborted before the verifier started)',
             'trusted_base': sorted(set(self.trusted)),
-            'samples': self.samples or [{'note': 'no obligation reached'}],
+            'samples': self.samples or [{'bounded_harness': b['harness'], 'bound': b['bound'], 'checks': b.get('detail'), 'ok': b['ok']} for b in self.bounded] or [{'note': 'no obligation reached'}],
             'functions_under_contract': self.functions,
             'backends': self.backends,
             'vacuity_canary': {'functions_forced_to_fail': self.canaries, 'meaning': 'assert(false) spliced at the start of every contracted body failed in each of them'},
